@@ -1147,8 +1147,8 @@ def run(ctx):
     else:
         ctx.streams_run.add('net-corpus')
     # ---- exhaustive interleavings of the smallest scenarios
-    n_small = ctx.scale(quick=6, thorough=20)
-    cap = ctx.scale(quick=400, thorough=1200)
+    n_small = ctx.scale(quick=5, thorough=20)
+    cap = ctx.scale(quick=250, thorough=1200)
     all_complete = True
     for _ in range(n_small):
         scn = gen_scenario(rng, small=True)
@@ -1157,7 +1157,7 @@ def run(ctx):
         ctx.stat('exhaustive-schedules=%d' % min(1000, 50 * (len(rs) // 50)))
         ctx.stat('exhaustive-enumeration=' + ('complete' if complete else 'truncated'))
         report(ctx, 'net-exhaustive', rs)
-        if ctx.elapsed() > (20 if ctx.tier == 'quick' else 300):
+        if ctx.elapsed() > (10 if ctx.tier == 'quick' else 300):
             ctx.note('exhaustive stream stopped early (time)')
             break
     ctx.note('exhaustive interleavings complete for every small scenario: %s' % all_complete)
